@@ -757,7 +757,7 @@ where
                 BinOp {
                     apply: cross,
                     prio: 4,
-                    is_commutative: true,
+                    is_commutative: false,
                 },
             ),
             Operator::make_bin(
@@ -866,7 +866,7 @@ where
                 BinOp {
                     apply: |a, b| Val::Bool(a == b),
                     prio: 1,
-                    is_commutative: true,
+                    is_commutative: false,
                 },
             ),
             Operator::make_bin(
@@ -906,7 +906,7 @@ where
                 BinOp {
                     apply: |a, b| Val::Bool(a != b),
                     prio: 1,
-                    is_commutative: true,
+                    is_commutative: false,
                 },
             ),
             Operator::make_bin(
